@@ -341,7 +341,11 @@ func (x *fx) havocAllMem(tagp string) {
 	h.tag = fmt.Sprintf("%s%d", tagp, x.nver)
 	h.set = nil
 	base := x.frameVsEntry(x.curMem)
+	ghostMods := x.pendingGhostMods
 	h.frame = func(n, nv, ov string) {
+		if strings.HasPrefix(n, "$g.") && ghostMods[n] {
+			return // changed by the callee: fully described by its ensures
+		}
 		if strings.HasPrefix(n, "$g.") {
 			// an unmodelled callee is assumed not to touch ghost state
 			x.assume("(= " + nv + " " + ov + ")")
@@ -557,7 +561,18 @@ func (x *fx) applyContract(c2 *Contract, f *ssa.Function, sig *types.Signature, 
 	}
 	// frame
 	if c2.ModAll {
+		// ghost variables the callee lists are described by its ensures, not framed
+		x.pendingGhostMods = map[string]bool{}
+		for _, cl := range c2.Modifies {
+			if cl.E != nil && cl.E.Op == "id" {
+				if gv, ok := x.g.ghosts[cl.E.Name]; ok {
+					gn, _ := x.ghostMem(gv)
+					x.pendingGhostMods[gn] = true
+				}
+			}
+		}
 		x.havocAllMem("call")
+		x.pendingGhostMods = nil
 	} else if len(c2.Modifies) > 0 {
 		var regs []region
 		x.c = &Contract{Pkg: c2.Pkg, Name: savedC.Name, Mode: savedC.Mode, Pure: savedC.Pure, FnSpecs: savedC.FnSpecs}
